@@ -538,7 +538,13 @@ impl<'forest, I: Interner> SolveState<'forest, I> {
                     debug!("starting next strand = {:#?}", canonical_strand);
 
                     canonical_strand.value.last_pursued_time = clock;
-                    match self.select_subgoal(&mut canonical_strand) {
+                    // Selecting a subgoal may create tables, which calls into the
+                    // database. Keep the strand reachable from the stack meanwhile, so
+                    // that `Drop` puts it back into its table if a callback panics.
+                    self.stack.top().active_strand = Some(canonical_strand.clone());
+                    let selection = self.select_subgoal(&mut canonical_strand);
+                    self.stack.top().active_strand = None;
+                    match selection {
                         SubGoalSelection::Selected => {
                             // A subgoal has been selected. We now check this subgoal
                             // table for an existing answer or if it's in a cycle.
@@ -945,6 +951,9 @@ impl<'forest, I: Interner> SolveState<'forest, I> {
                 num_universes,
                 canonical_strand.clone(),
             );
+            // Merging unifies, which may call into the database (variances). As above,
+            // keep the strand reachable from the stack in case a callback panics.
+            self.stack.top().active_strand = Some(canonical_strand);
             match self.merge_answer_into_strand(&mut infer, &mut strand) {
                 Err(e) => {
                     debug!(?strand, "could not merge into current strand");
